@@ -214,3 +214,523 @@ Proof.
   apply Merge_nil_inv in HM0. subst s0.
   rewrite <- HL, <- (Permutation_length HP), zipsum_zeros_r. exact HP.
 Qed.
+
+(** ---- unit vectors ---- *)
+Definition single_vec (k : nat) (v : Z) : list Z := update (k - 1) (fun s => s + v) (repeat 0 k).
+
+Lemma update_repeat {T} (f : T -> T) (a : T) : forall k i, (i < k)%nat ->
+  update i f (repeat a k) = repeat a i ++ f a :: repeat a (k - 1 - i).
+Proof.
+  induction k as [|k IH]; intros i Hi; [lia|]. destruct i as [|i]; cbn [repeat update app].
+  - rewrite Nat.sub_0_r. replace (S k - 1)%nat with k by lia. reflexivity.
+  - rewrite IH by lia. replace (S k - 1 - S i)%nat with (k - 1 - i)%nat by lia. reflexivity.
+Qed.
+
+Lemma unit_vec_perm k i v : (i < k)%nat ->
+  Permutation (update i (fun s => s + v) (repeat 0 k)) ((0 + v) :: repeat 0 (k - 1)).
+Proof.
+  intros Hi. rewrite update_repeat by exact Hi. symmetry.
+  replace (k - 1)%nat with (i + (k - 1 - i))%nat at 1 by lia. rewrite repeat_app.
+  apply Permutation_middle.
+Qed.
+
+Lemma unit_vec_perm2 k i j v : (i < k)%nat -> (j < k)%nat ->
+  Permutation (update i (fun s => s + v) (repeat 0 k)) (update j (fun s => s + v) (repeat 0 k)).
+Proof.
+  intros Hi Hj. etransitivity; [apply unit_vec_perm; exact Hi|symmetry; apply unit_vec_perm; exact Hj].
+Qed.
+
+Lemma zipsum_unit i v : forall s,
+  zipsum (update i (fun x => x + v) (repeat 0 (length s))) s = update i (fun x => x + v) s.
+Proof.
+  intros s; revert i; induction s as [|x t IH]; intros i; [destruct i; reflexivity|].
+  destruct i as [|i]; cbn [length repeat update zipsum].
+  - rewrite zipsum_zeros_l. f_equal. lia.
+  - rewrite IH. f_equal.
+Qed.
+
+(** every attainable load vector is a merge of the unit vectors of the values *)
+Lemma attainable_merge k : (1 <= k)%nat -> forall vs s,
+  Attainable k (rev vs) s -> Merge k (map (single_vec k) vs) s.
+Proof.
+  intros Hk. induction vs as [|v t IH]; intros s Hs.
+  - cbn [rev] in Hs. apply OracleSpec.Attainable_nil in Hs. subst s. constructor.
+  - cbn [rev] in Hs. apply OracleSpec.Attainable_snoc in Hs. destruct Hs as (s0 & i & Hs0 & Hi & ->).
+    pose proof (OracleSpec.Attainable_length _ _ _ Hs0) as HL0.
+    rewrite <- zipsum_unit. rewrite HL0. cbn [map].
+    apply Merge_cons; [|unfold single_vec; rewrite update_length; apply repeat_length|apply IH; exact Hs0].
+    unfold single_vec. apply unit_vec_perm2; lia.
+Qed.
+
+Section CKKComplete.
+  Context {A : Type} (valueof nameof : A -> Z).
+
+  (** the vectors of sums held by a heap *)
+  Definition hsums (h : @heap A) : list (list Z) := map (fun e => sums (snd e)) h.
+
+  Lemma hsums_perm h1 h2 : Permutation h1 h2 -> Permutation (hsums h1) (hsums h2).
+  Proof. apply Permutation_map. Qed.
+
+  Lemma hsums_push rest (c : bins A) :
+    Permutation (hsums (heap_push rest c)) (sums (sort_bins c) :: hsums rest).
+  Proof.
+    unfold heap_push. cbv zeta.
+    exact (hsums_perm _ _ (heap_insert_perm (- bins_diff (sort_bins c), sort_bins c) rest)).
+  Qed.
+
+  Lemma Merge_push k rest (c : bins A) w s :
+    Permutation w (sums c) -> Merge k (w :: hsums rest) s -> Merge k (hsums (heap_push rest c)) s.
+  Proof.
+    intros Hw HM. eapply Merge_perm_list; [symmetry; apply hsums_push|].
+    eapply Merge_perm_head; [|exact HM].
+    etransitivity; [exact Hw|symmetry; apply sort_bins_sums_perm].
+  Qed.
+
+  Lemma Merge_push_inv k rest (c : bins A) s :
+    Merge k (hsums (heap_push rest c)) s -> Merge k (sums c :: hsums rest) s.
+  Proof.
+    intros HM. eapply Merge_perm_head; [apply sort_bins_sums_perm|].
+    eapply Merge_perm_list; [apply hsums_push|exact HM].
+  Qed.
+
+  (** ---- the initial heap ---- *)
+  Lemma singleton_bins_sums k x :
+    sums (singleton_bins valueof true k x) = single_vec k (valueof x).
+  Proof. unfold singleton_bins, single_vec. rewrite add_item_sums, new_bins_sums. reflexivity. Qed.
+
+  Lemma initial_fold_perm k : forall l (h : @heap A),
+    Permutation (fold_left (fun h x => heap_push h (singleton_bins valueof true k x)) l h)
+                (map (fun x => (- bins_diff (sort_bins (singleton_bins valueof true k x)),
+                                sort_bins (singleton_bins valueof true k x))) l ++ h).
+  Proof.
+    induction l as [|x t IH]; intros h; cbn [fold_left map app]; [apply Permutation_refl|].
+    rewrite IH. etransitivity; [apply Permutation_app_head; unfold heap_push; apply heap_insert_perm|].
+    symmetry. apply Permutation_middle.
+  Qed.
+
+  Lemma Forall2_map_perm {T} (f g : T -> list Z) l :
+    (forall x, Permutation (f x) (g x)) -> Forall2 (@Permutation Z) (map f l) (map g l).
+  Proof. intros H. induction l as [|x t IH]; cbn [map]; constructor; auto. Qed.
+
+  Lemma initial_heap_merge k items s : (1 <= k)%nat ->
+    Attainable k (map valueof items) s -> Merge k (hsums (initial_heap valueof true k items)) s.
+  Proof.
+    intros Hk Hs. unfold initial_heap.
+    eapply Merge_perm_list; [symmetry; apply hsums_perm, initial_fold_perm|].
+    rewrite app_nil_r. unfold hsums. rewrite map_map. cbn [snd].
+    apply (Merge_perm_each k (map (single_vec k) (map valueof (sort_desc valueof items)))).
+    - apply attainable_merge; [exact Hk|].
+      eapply CoveringProofs.Attainable_perm; [|exact Hs].
+      rewrite <- map_rev. apply Permutation_map.
+      etransitivity; [symmetry; apply sort_desc_perm|apply Permutation_rev].
+    - rewrite map_map. apply Forall2_map_perm. intros x.
+      rewrite <- singleton_bins_sums. symmetry. apply sort_bins_sums_perm.
+  Qed.
+
+  (** ---- every pairing of two bins-arrays is a combo_of_perm ---- *)
+  Lemma range_from_map_S n : forall i, range_from (S i) n = map S (range_from i n).
+  Proof.
+    induction n as [|n IH]; intros i; cbn [range_from map]; [reflexivity|]. rewrite IH. reflexivity.
+  Qed.
+
+  Lemma index_perm (b : bins A) : forall b', Permutation b' b ->
+    exists p, Permutation p (range (length b)) /\ map (getbin b) p = b'.
+  Proof.
+    induction b as [|x t IH]; intros b' HP.
+    - apply Permutation_sym, Permutation_nil in HP. subst b'. exists []. split; [constructor|reflexivity].
+    - pose proof HP as HP0. apply Permutation_vs_cons_inv in HP0. destruct HP0 as (l1 & l2 & ->).
+      assert (HP' : Permutation (l1 ++ l2) t).
+      { symmetry. eapply Permutation_cons_app_inv. symmetry. exact HP. }
+      destruct (IH _ HP') as (q & Hq & Eq).
+      apply map_eq_app in Eq. destruct Eq as (q1 & q2 & -> & E1 & E2).
+      exists (map S q1 ++ O :: map S q2). split.
+      + unfold range in *. cbn [length range_from]. rewrite range_from_map_S.
+        etransitivity; [symmetry; apply Permutation_middle|]. apply perm_skip.
+        rewrite <- map_app. apply Permutation_map. exact Hq.
+      + rewrite map_app. cbn [map]. rewrite !map_map.
+        change (map (getbin t) q1 ++ x :: map (getbin t) q2 = l1 ++ x :: l2).
+        rewrite E1, E2. reflexivity.
+  Qed.
+
+  Lemma sums_length (b : bins A) : length (sums b) = length b.
+  Proof. apply map_length. Qed.
+
+  Lemma pairing_realizable (b1 b2 : bins A) v1' v2' :
+    length b1 = length b2 -> Permutation v1' (sums b1) -> Permutation v2' (sums b2) ->
+    exists p, Permutation p (range (length b1)) /\
+              Permutation (sums (combo_of_perm nameof true b1 b2 p)) (zipsum v1' v2').
+  Proof.
+    intros HL H1 H2.
+    destruct (zipsum_perm_r v1' v2' (sums b2)) as (a' & Ha & Hz); [|exact H2|].
+    { rewrite (Permutation_length H1), (Permutation_length H2), !sums_length. exact HL. }
+    assert (Ha1 : Permutation a' (map fst b1)) by (etransitivity; [exact Ha|exact H1]).
+    apply Permutation_map_inv in Ha1. destruct Ha1 as (b1' & -> & Pb).
+    destruct (index_perm b1 b1') as (p & Hp & Ep); [symmetry; exact Pb|].
+    exists p. split; [exact Hp|].
+    rewrite combo_of_perm_eq, Ep.
+    rewrite sort_bins_sums_perm, name_sorted_sums, zip_combine_sums.
+    symmetry. exact Hz.
+  Qed.
+
+  (** ---- equal de-duplication keys mean equal sums, when names determine values ---- *)
+  Lemma lex_insert_perm x l : Permutation (lex_insert x l) (x :: l).
+  Proof.
+    induction l as [|y t IH]; cbn [lex_insert]; [apply Permutation_refl|].
+    destruct (lex_le x y); [apply Permutation_refl|].
+    etransitivity; [apply perm_skip, IH|apply perm_swap].
+  Qed.
+
+  Lemma lex_sort_perm l : Permutation (lex_sort l) l.
+  Proof.
+    induction l as [|x t IH]; [apply Permutation_refl|]. cbn [lex_sort fold_right].
+    etransitivity; [apply lex_insert_perm|]. apply perm_skip. exact IH.
+  Qed.
+
+  (** items with the same name have the same value *)
+  Definition names_ok (its : list A) : Prop :=
+    forall x y, In x its -> In y its -> nameof x = nameof y -> valueof x = valueof y.
+
+  Lemma names_values its : names_ok its -> forall l1 l2,
+    Forall (fun x => In x its) l1 -> Forall (fun x => In x its) l2 ->
+    map nameof l1 = map nameof l2 -> map valueof l1 = map valueof l2.
+  Proof.
+    intros HN. induction l1 as [|x t IH]; intros [|y t2] I1 I2 E; cbn [map] in *;
+      try discriminate; [reflexivity|].
+    injection E as E1 E2. f_equal.
+    - apply HN; [exact (Forall_inv I1)|exact (Forall_inv I2)|exact E1].
+    - apply IH; [exact (Forall_inv_tail I1)|exact (Forall_inv_tail I2)|exact E2].
+  Qed.
+
+  Definition bin_names (x : bin A) : list Z := map nameof (snd x).
+
+  Lemma same_names_sums its : names_ok its -> forall c c3 : bins A,
+    map bin_names c = map bin_names c3 -> wf valueof c -> wf valueof c3 ->
+    Forall (fun x => In x its) (contents c) -> Forall (fun x => In x its) (contents c3) ->
+    sums c = sums c3.
+  Proof.
+    intros HN. induction c as [|x t IH]; intros [|y t3] E W W3 I I3; cbn [map] in E;
+      try discriminate; [reflexivity|].
+    injection E as E1 E2. rewrite contents_cons in I, I3.
+    apply Forall_app in I. apply Forall_app in I3. destruct I as [Ix It]. destruct I3 as [Iy It3].
+    cbn [sums map]. f_equal.
+    - pose proof (Forall_inv W) as Wx. pose proof (Forall_inv W3) as Wy. unfold wf_bin in Wx, Wy.
+      rewrite Wx, Wy. f_equal. eapply names_values; eassumption.
+    - apply IH; try assumption; [exact (Forall_inv_tail W)|exact (Forall_inv_tail W3)].
+  Qed.
+
+  Lemma key_eq_sums_perm its (c c' : bins A) : names_ok its ->
+    combo_key nameof true c = combo_key nameof true c' ->
+    wf valueof c -> wf valueof c' ->
+    Forall (fun x => In x its) (contents c) -> Forall (fun x => In x its) (contents c') ->
+    Permutation (sums c) (sums c').
+  Proof.
+    intros HN HK W W' I I'.
+    assert (HK' : lex_sort (map bin_names c) = lex_sort (map bin_names c')) by exact HK.
+    assert (HP : Permutation (map bin_names c) (map bin_names c')).
+    { etransitivity; [symmetry; apply lex_sort_perm|]. rewrite HK'. apply lex_sort_perm. }
+    apply Permutation_map_inv in HP. destruct HP as (c3 & E & P3).
+    rewrite (same_names_sums its HN c c3 E W).
+    - symmetry. apply Permutation_map. exact P3.
+    - eapply wf_perm; [exact P3|exact W'].
+    - exact I.
+    - eapply Permutation_Forall; [apply contents_perm; exact P3|exact I'].
+  Qed.
+
+  Lemma heap_entry_items k its h e : heap_inv valueof k its h -> In e h ->
+    Forall (fun x => In x its) (contents (snd e)).
+  Proof.
+    intros [_ HP] He. apply Forall_forall. intros x Hx.
+    eapply Permutation_in; [exact HP|]. unfold heap_contents. apply in_concat.
+    exists (contents (snd e)). split; [|exact Hx].
+    apply in_map_iff. exists e. split; [reflexivity|exact He].
+  Qed.
+
+  (** ---- one step: a merge of the heap is a merge of one of its children ---- *)
+  Lemma complete_step k its e1 e2 rest s : names_ok its ->
+    heap_inv valueof k its (e1 :: e2 :: rest) -> Merge k (hsums (e1 :: e2 :: rest)) s ->
+    exists c, In c (all_combinations nameof true (snd e1) (snd e2)) /\
+              Merge k (hsums (heap_push rest c)) s.
+  Proof.
+    intros HN Hh HM. pose proof Hh as [HF _].
+    destruct (Forall_inv HF) as [L1 W1]. destruct (Forall_inv (Forall_inv_tail HF)) as [L2 W2].
+    pose proof (heap_entry_items k its _ e1 Hh (or_introl eq_refl)) as I1.
+    pose proof (heap_entry_items k its _ e2 Hh (or_intror (or_introl eq_refl))) as I2.
+    cbn [hsums map] in HM. apply Merge_pair in HM. destruct HM as (v1' & v2' & HP1 & HP2 & HM).
+    destruct (pairing_realizable (snd e1) (snd e2) v1' v2') as (p & Hp & Hsp);
+      [congruence|exact HP1|exact HP2|].
+    destruct (all_combinations_complete_gen nameof true (snd e1) (snd e2) p Hp) as (c & Hc & HK).
+    rewrite L1 in Hp.
+    destruct (all_combinations_ok valueof nameof k _ _ c L1 L2 W1 W2 Hc) as (_ & Wc & Pc).
+    destruct (combo_of_perm_ok valueof nameof k _ _ p L1 L2 W1 W2 Hp) as (_ & Wp & Pp).
+    assert (I12 : Forall (fun x => In x its) (contents (snd e1) ++ contents (snd e2)))
+      by (apply Forall_app; split; assumption).
+    exists c. split; [exact Hc|].
+    apply (Merge_push k rest c (zipsum v1' v2')); [|exact HM].
+    etransitivity; [symmetry; exact Hsp|]. symmetry.
+    apply (key_eq_sums_perm its); try assumption.
+    - eapply Permutation_Forall; [symmetry; exact Pc|exact I12].
+    - eapply Permutation_Forall; [symmetry; exact Pp|exact I12].
+  Qed.
+
+  (** ---- completeness of the search tree below any heap ---- *)
+  Lemma ckk_complete_from k its : names_ok its -> forall n h s,
+    length h = S n -> heap_inv valueof k its h -> Merge k (hsums h) s ->
+    exists e, expands nameof h [e] /\ Permutation (sums (snd e)) s.
+  Proof.
+    intros HN. induction n as [|n IH]; intros h s HL Hh HM.
+    - destruct h as [|e [|e2 rest]]; cbn [length] in HL; try discriminate.
+      exists e. split; [apply expands_refl|]. symmetry. apply (Merge_single_inv k). exact HM.
+    - destruct h as [|e1 [|e2 rest]]; cbn [length] in HL; try discriminate.
+      destruct (complete_step k its e1 e2 rest s HN Hh HM) as (c & Hc & HMc).
+      destruct (IH (heap_push rest c) s) as (e & He & Hs).
+      + rewrite heap_push_length. lia.
+      + eapply ckk_child_inv; eassumption.
+      + exact HMc.
+      + exists e. split; [eapply expands_step; eassumption|exact Hs].
+  Qed.
+
+  (** every attainable vector of sums is reached by a leaf of the search tree *)
+  Theorem ckk_complete : forall k items s, (1 <= k)%nat -> items <> [] -> names_ok items ->
+    Attainable k (map valueof items) s ->
+    exists e, expands nameof (initial_heap valueof true k items) [e] /\
+              Permutation (sums (snd e)) s.
+  Proof.
+    intros k items s Hk Hne HN Hs.
+    destruct (initial_heap_inv valueof k items Hk) as [Hinv Hlen].
+    apply (ckk_complete_from k items HN (length items - 1) _ s).
+    - rewrite Hlen. destruct items; [congruence|cbn [length]; lia].
+    - exact Hinv.
+    - apply initial_heap_merge; assumption.
+  Qed.
+
+  (** ---- C02: optimality ---- *)
+  Lemma partition_attainable k items (b : bins A) :
+    is_partition valueof k items b -> Attainable k (map valueof items) (sums b).
+  Proof.
+    intros (HP & HL & HW). destruct (bins_attainable valueof b HW) as (ps & Hm & Hf & Hs).
+    apply (CoveringProofs.Attainable_perm k (map valueof (contents b)));
+      [apply Permutation_map; exact HP|].
+    apply CoveringProofs.Attainable_pairs. exists ps. rewrite HL in *. repeat split; assumption.
+  Qed.
+
+  Theorem ckk_optimal : forall k items b, (1 <= k)%nat -> items <> [] ->
+    Forall (fun x => 0 <= valueof x) items -> names_ok items ->
+    ckk valueof nameof true k items = Ok b ->
+    Opt MinDiff k (map valueof items) (value MinDiff (sums b) false).
+  Proof.
+    intros k items b Hk Hne Hpos HN Hckk.
+    destruct (ckk_partition valueof nameof k items Hk Hne) as (b' & Hb' & Hpart).
+    rewrite Hckk in Hb'. injection Hb' as <-.
+    split.
+    - exists (sums b). split; [apply partition_attainable; exact Hpart|reflexivity].
+    - intros s Hs. destruct (ckk_complete k items s Hk Hne HN Hs) as (e & He & HPs).
+      pose proof (ckk_best_in_tree valueof nameof k items b e Hk Hpos Hckk He) as Hle.
+      unfold value. rewrite <- (zmax_perm _ _ HPs), <- (zmin_perm _ _ HPs). exact Hle.
+  Qed.
+
+  (** the two situations in which the hypothesis on names holds *)
+  Lemma names_ok_nodup items : NoDup (map nameof items) -> names_ok items.
+  Proof.
+    intros HND x y Hx Hy E. f_equal.
+    induction items as [|z t IH]; [destruct Hx|]. cbn [map] in HND.
+    inversion HND as [|z' t' Hz Ht]; subst z' t'.
+    destruct Hx as [Hx|Hx]; destruct Hy as [Hy|Hy].
+    - congruence.
+    - subst z. exfalso. apply Hz. rewrite E. apply in_map. exact Hy.
+    - subst z. exfalso. apply Hz. rewrite <- E. apply in_map. exact Hx.
+    - apply IH; assumption.
+  Qed.
+
+  (** ---- the tree without de-duplication ---- *)
+  Inductive expands_all : @heap A -> @heap A -> Prop :=
+  | expands_all_refl h : expands_all h h
+  | expands_all_step e1 e2 rest p h' :
+      Permutation p (range (length (snd e1))) ->
+      expands_all (heap_push rest (combo_of_perm nameof true (snd e1) (snd e2) p)) h' ->
+      expands_all (e1 :: e2 :: rest) h'.
+
+  Lemma expands_expands_all h h' : expands nameof h h' -> expands_all h h'.
+  Proof.
+    induction 1 as [h|e1 e2 rest c h' Hc He IH]; [apply expands_all_refl|].
+    apply all_combinations_sound in Hc. destruct Hc as (p & Hp & ->).
+    eapply expands_all_step; eassumption.
+  Qed.
+
+  Lemma expands_all_nil_inv h' : expands_all [] h' -> h' = [].
+  Proof.
+    intros H. remember (@nil (@hentry A)) as h0 eqn:E.
+    destruct H as [h|e1 e2 rest p h' Hp He]; [reflexivity|discriminate E].
+  Qed.
+
+  Lemma combo_child_inv k its e1 e2 rest p :
+    heap_inv valueof k its (e1 :: e2 :: rest) -> Permutation p (range (length (snd e1))) ->
+    heap_inv valueof k its (heap_push rest (combo_of_perm nameof true (snd e1) (snd e2) p)).
+  Proof.
+    intros Hh Hp. pose proof Hh as [HF _].
+    destruct (Forall_inv HF) as [L1 W1]. destruct (Forall_inv (Forall_inv_tail HF)) as [L2 W2].
+    rewrite L1 in Hp.
+    destruct (combo_of_perm_ok valueof nameof k _ _ p L1 L2 W1 W2 Hp) as (Lp & Wp & Pp).
+    eapply replace_top_inv; eassumption.
+  Qed.
+
+  Lemma expands_all_inv k its h h' :
+    expands_all h h' -> heap_inv valueof k its h -> heap_inv valueof k its h'.
+  Proof.
+    induction 1 as [h|e1 e2 rest p h' Hp He IH]; intros Hh; [exact Hh|].
+    apply IH. apply combo_child_inv; assumption.
+  Qed.
+
+  Lemma combo_sums_zip (b1 b2 : bins A) p :
+    Permutation (sums (combo_of_perm nameof true b1 b2 p))
+                (zipsum (sums (map (getbin b1) p)) (sums b2)).
+  Proof.
+    rewrite combo_of_perm_eq, sort_bins_sums_perm, name_sorted_sums, zip_combine_sums.
+    apply Permutation_refl.
+  Qed.
+
+  Lemma complete_step_all k its e1 e2 rest s :
+    heap_inv valueof k its (e1 :: e2 :: rest) -> Merge k (hsums (e1 :: e2 :: rest)) s ->
+    exists p, Permutation p (range (length (snd e1))) /\
+              Merge k (hsums (heap_push rest (combo_of_perm nameof true (snd e1) (snd e2) p))) s.
+  Proof.
+    intros Hh HM. pose proof Hh as [HF _].
+    destruct (Forall_inv HF) as [L1 _]. destruct (Forall_inv (Forall_inv_tail HF)) as [L2 _].
+    cbn [hsums map] in HM. apply Merge_pair in HM. destruct HM as (v1' & v2' & HP1 & HP2 & HM).
+    destruct (pairing_realizable (snd e1) (snd e2) v1' v2') as (p & Hp & Hsp);
+      [congruence|exact HP1|exact HP2|].
+    exists p. split; [exact Hp|].
+    apply (Merge_push k rest _ (zipsum v1' v2')); [symmetry; exact Hsp|exact HM].
+  Qed.
+
+  Lemma expands_all_complete_from k its : forall n h s,
+    length h = S n -> heap_inv valueof k its h -> Merge k (hsums h) s ->
+    exists e, expands_all h [e] /\ Permutation (sums (snd e)) s.
+  Proof.
+    induction n as [|n IH]; intros h s HL Hh HM.
+    - destruct h as [|e [|e2 rest]]; cbn [length] in HL; try discriminate.
+      exists e. split; [apply expands_all_refl|]. symmetry. apply (Merge_single_inv k). exact HM.
+    - destruct h as [|e1 [|e2 rest]]; cbn [length] in HL; try discriminate.
+      destruct (complete_step_all k its e1 e2 rest s Hh HM) as (p & Hp & HMc).
+      destruct (IH (heap_push rest (combo_of_perm nameof true (snd e1) (snd e2) p)) s)
+        as (e & He & Hs).
+      + rewrite heap_push_length. lia.
+      + apply combo_child_inv; assumption.
+      + exact HMc.
+      + exists e. split; [eapply expands_all_step; eassumption|exact Hs].
+  Qed.
+
+  (** every attainable vector of sums is reached by a leaf of the tree of all pairings *)
+  Theorem expands_all_complete : forall k items s, (1 <= k)%nat -> items <> [] ->
+    Attainable k (map valueof items) s ->
+    exists e, expands_all (initial_heap valueof true k items) [e] /\
+              Permutation (sums (snd e)) s.
+  Proof.
+    intros k items s Hk Hne Hs.
+    destruct (initial_heap_inv valueof k items Hk) as [Hinv Hlen].
+    apply (expands_all_complete_from k items (length items - 1) _ s).
+    - rewrite Hlen. destruct items; [congruence|cbn [length]; lia].
+    - exact Hinv.
+    - apply initial_heap_merge; assumption.
+  Qed.
+
+  (** conversely every heap reached is a re-association of the same merge *)
+  Lemma expands_all_merge k its h h' : expands_all h h' -> heap_inv valueof k its h ->
+    forall s, Merge k (hsums h') s -> Merge k (hsums h) s.
+  Proof.
+    induction 1 as [h|e1 e2 rest p h' Hp He IH]; intros Hh s HM; [exact HM|].
+    pose proof Hh as [HF _].
+    destruct (Forall_inv HF) as [L1 _]. destruct (Forall_inv (Forall_inv_tail HF)) as [L2 _].
+    specialize (IH (combo_child_inv k its e1 e2 rest p Hh Hp) s HM).
+    apply Merge_push_inv in IH. cbn [hsums map].
+    apply (Merge_unpair k _ _ (sums (map (getbin (snd e1)) p)) (sums (snd e2))
+             (sums (combo_of_perm nameof true (snd e1) (snd e2) p))).
+    - apply Permutation_map. apply picked_perm. exact Hp.
+    - apply Permutation_refl.
+    - rewrite sums_length. exact L1.
+    - rewrite sums_length. exact L2.
+    - apply combo_sums_zip.
+    - exact IH.
+  Qed.
+
+  (** de-duplication loses no leaf, up to the order of the bins *)
+  Theorem dedup_preserves_leaves : forall k its h e, names_ok its ->
+    heap_inv valueof k its h -> expands_all h [e] ->
+    exists e', expands nameof h [e'] /\ Permutation (sums (snd e')) (sums (snd e)).
+  Proof.
+    intros k its h e HN Hh Hex.
+    pose proof (expands_all_inv k its _ _ Hex Hh) as [HF' _].
+    destruct (Forall_inv HF') as [Le _].
+    assert (HM : Merge k (hsums h) (sums (snd e))).
+    { apply (expands_all_merge k its h [e] Hex Hh). cbn [hsums map].
+      apply Merge_single. rewrite sums_length. exact Le. }
+    destruct h as [|e0 t].
+    - apply expands_all_nil_inv in Hex. discriminate Hex.
+    - apply (ckk_complete_from k its HN (length t) (e0 :: t)); [reflexivity|exact Hh|exact HM].
+  Qed.
+
+  (** ---- corollaries ---- *)
+
+  (** KK's largest sum is at most (2 - 1/k) times the optimum *)
+  Theorem kk_ratio_2 : forall k items b opt, (1 <= k)%nat -> items <> [] ->
+    Forall (fun x => 0 <= valueof x) items ->
+    kk valueof true k items = Ok b ->
+    Opt MinLargest k (map valueof items) opt ->
+    Z.of_nat k * zmax (sums b) <= (2 * Z.of_nat k - 1) * opt.
+  Proof.
+    intros k items b opt Hk Hne Hpos Hkk Hopt.
+    destruct (kk_partition valueof k items Hk Hne) as (b' & Hb' & Hpart).
+    rewrite Hkk in Hb'. injection Hb' as <-.
+    apply (gap_ratio_2 k (map valueof items)).
+    - exact Hk.
+    - apply Forall_map. exact Hpos.
+    - apply partition_attainable. exact Hpart.
+    - apply (kk_gap valueof k items b); assumption.
+    - exact Hopt.
+  Qed.
+
+  (** the last partition yielded by the generator (default bound) is optimal *)
+  Theorem ckk_generator_last_optimal : forall k items, (1 <= k)%nat -> items <> [] ->
+    Forall (fun x => 0 <= valueof x) items -> names_ok items ->
+    exists b_last,
+      last_opt (ckk_generator valueof nameof true k items None) = Some b_last /\
+      is_partition valueof k items b_last /\
+      Opt MinDiff k (map valueof items) (value MinDiff (sums b_last) false).
+  Proof.
+    intros k items Hk Hne Hpos HN.
+    destruct (ckk_generator_last valueof nameof k items Hne) as (b & Hlast & Hckk).
+    exists b. split; [exact Hlast|]. split.
+    - apply (ckk_generator_valid valueof nameof k items b Hk Hne).
+      unfold last_opt in Hlast. apply in_rev.
+      destruct (rev (ckk_generator valueof nameof true k items None)) as [|y r]; [discriminate|].
+      injection Hlast as ->. left. reflexivity.
+    - rewrite <- (value_perm MinDiff _ _ (sort_bins_sums_perm b)).
+      apply ckk_optimal; assumption.
+  Qed.
+
+End CKKComplete.
+
+(** names equal to values (plain numeric input) *)
+Lemma names_ok_values {A} (valueof : A -> Z) items : names_ok valueof valueof items.
+Proof. intros x y _ _ E. exact E. Qed.
+
+Corollary ckk_optimal_values {A} (valueof : A -> Z) : forall k items b, (1 <= k)%nat -> items <> [] ->
+  Forall (fun x => 0 <= valueof x) items ->
+  ckk valueof valueof true k items = Ok b ->
+  Opt MinDiff k (map valueof items) (value MinDiff (sums b) false).
+Proof. intros k items b Hk Hne Hpos. apply ckk_optimal; try assumption. apply names_ok_values. Qed.
+
+(** the hypothesis [names_ok] cannot be dropped: if all names are equal, combinations that
+    differ in their sums get the same de-duplication key and the search is incomplete *)
+Example ckk_needs_names_ok :
+  ckk (fun v : Z => v) (fun _ : Z => 0) true 2 [4; 5; 6; 7; 8] = Ok [(12, [7; 5]); (18, [4; 8; 6])] /\
+  ckk (fun v : Z => v) (fun v : Z => v) true 2 [4; 5; 6; 7; 8] = Ok [(15, [4; 5; 6]); (15, [7; 8])].
+Proof. vm_compute. split; reflexivity. Qed.
+
+Print Assumptions expands_all_complete.
+Print Assumptions dedup_preserves_leaves.
+Print Assumptions ckk_complete.
+Print Assumptions ckk_optimal.
+Print Assumptions ckk_optimal_values.
+Print Assumptions kk_ratio_2.
+Print Assumptions ckk_generator_last_optimal.
+Print Assumptions names_ok_nodup.
